@@ -411,17 +411,17 @@ func v2call(c *restli.Client, op, id string) string {
 		}
 		out += v2errString(err)
 	case "update-long": // tunnelled (query longer than the threshold) WITH a body: multipart/mixed
-		out = v2errString(restli.Update(c, ctx, rp("/items/"+id), &v2ent{Key: id}, v2longQuery(id), nil))
+		out = v2errString(restli.Update(c, ctx, rp("/items/"+id), &v2ent{Key: id}, v2longQuery(id), v2readOnly))
 	case "partial-update-long":
 		out = v2errString(restli.PartialUpdate(c, ctx, rp("/items/"+id), &v2ent{Key: id}, v2longQuery(id), nil))
 	case "create-long":
-		ce, err := restli.Create[string](c, ctx, rp("/items"), &v2ent{Key: id}, v2longQuery(id), nil)
+		ce, err := restli.Create[string](c, ctx, rp("/items"), &v2ent{Key: id}, v2longQuery(id), v2readOnly)
 		if ce != nil {
 			out = fmt.Sprintf("id=%s status=%d location=%s ", ce.Id, ce.Status, v2ptr(ce.Location))
 		}
 		out += v2errString(err)
 	case "update":
-		out = v2errString(restli.Update(c, ctx, rp("/items/"+id), &v2ent{Key: id}, restli.QueryParamsString("x="+id), nil))
+		out = v2errString(restli.Update(c, ctx, rp("/items/"+id), &v2ent{Key: id}, restli.QueryParamsString("x="+id), v2readOnly))
 	case "delete":
 		out = v2errString(restli.Delete(c, ctx, rp("/items/"+id), nil))
 	case "find", "find-long":
@@ -490,13 +490,13 @@ func v2buildReq(c *restli.Client, op, id string) (*http.Request, error) {
 	rp := func(s string) restli.ResourcePathString { return restli.ResourcePathString(s) }
 	switch op {
 	case "b-update-long":
-		return restli.NewJsonRequest(c, ctx, rp("/items/"+id), v2longQuery(id), http.MethodPut, restli.Method_update, &v2ent{Key: id}, nil)
+		return restli.NewJsonRequest(c, ctx, rp("/items/"+id), v2longQuery(id), http.MethodPut, restli.Method_update, &v2ent{Key: id}, v2readOnly)
 	case "b-partial-update-long":
 		return restli.NewJsonRequest(c, ctx, rp("/items/"+id), v2longQuery(id), http.MethodPost, restli.Method_partial_update, &v2ent{Key: id}, nil)
 	case "b-create-long":
 		return restli.NewCreateRequest(c, ctx, rp("/items"), v2longQuery(id), restli.Method_create, &v2ent{Key: id}, v2readOnly)
 	case "b-update":
-		return restli.NewJsonRequest(c, ctx, rp("/items/"+id), restli.QueryParamsString("x="+id), http.MethodPut, restli.Method_update, &v2ent{Key: id}, nil)
+		return restli.NewJsonRequest(c, ctx, rp("/items/"+id), restli.QueryParamsString("x="+id), http.MethodPut, restli.Method_update, &v2ent{Key: id}, v2readOnly)
 	case "b-get-long":
 		return restli.NewGetRequest(c, ctx, rp("/items/"+id), v2longQuery(id), restli.Method_get)
 	case "b-delete":
